@@ -36,6 +36,14 @@ def parse_text_corr(ctx, name, flagsets, quick_len=3, thorough_len=4, extra_patt
         body = ''.join(rng.choice(['[:alpha:]', '[:digit:]', '[:xdigit:]', 'a-f', '0-9', 'A-Z', 'z-a', 'a', '_', '-', '.',
                                    '\\]', '\\-', '!', '^', '[', '&&', '/', '[:punct:]', '+-0', '!-~', ',-.']) for _ in range(rng.randint(1, 5)))
         pats.append(rng.choice(['', 'a', '*', '?(']) + '[' + body + ']' + rng.choice(['', 'b', '*', ')']))
+    if brackets:
+        # every combination of negation and reversed / valid / mixed-case ranges: the emptied and the "anything" class
+        rngs = ['b-a', 'z-a', '9-0', 'a-b', 'A-z', 'Z-a', 'a-Z', '_-b', 'a', '#', '(?#)']
+        for neg in ('', '!', '^'):
+            for k in (1, 2):
+                for combo in itertools.product(rngs, repeat=k):
+                    for pre, post in (('', ''), ('x', 'y'), ('@(', '|x)'), ('!(', ')')):
+                        pats.append(pre + '[' + neg + ''.join(combo) + ']' + post)
     # grammar-guided nested patterns: the long-range state of the parser (what an earlier group / segment leaves
     # behind for a later one), which bounded-exhaustive short strings cannot reach
     import textgen
